@@ -12,13 +12,23 @@ _child = {}
 _seq = [0]
 
 
+def _die_with_parent():
+    """the child must not outlive the worker that started it (PR_SET_PDEATHSIG = 1, SIGKILL = 9)"""
+    try:
+        import ctypes
+        ctypes.CDLL("libc.so.6", use_errno=True).prctl(1, 9)
+    except Exception:
+        pass
+
+
 def call(engine_mod: str, func: str, *args):
     ch = _child.get(engine_mod)
     if ch is None or ch.poll() is not None:
         env = dict(os.environ, BIGTREE_CONF_ASSERTIONS="", PYTHONHASHSEED="0",
                    PYTHONPATH=REPO + os.pathsep + VERIF, MPLBACKEND="Agg")
         ch = subprocess.Popen([sys.executable, "-m", "harness.noassert", engine_mod],
-                              stdin=subprocess.PIPE, stdout=subprocess.PIPE, text=True, env=env, cwd=VERIF)
+                              stdin=subprocess.PIPE, stdout=subprocess.PIPE, stderr=subprocess.DEVNULL,
+                              text=True, env=env, cwd=VERIF, preexec_fn=_die_with_parent)
         _child[engine_mod] = ch
     _seq[0] += 1
     rid = _seq[0]
@@ -50,8 +60,16 @@ def _main():
     sys.stdout = sys.stderr           # nothing but replies on the pipe
     from bigtree.globals import ASSERTIONS
     eng = importlib.import_module(sys.argv[1])
+    import signal
+
+    def _watchdog(signum, frame):      # a request that loops for ever must not leave a spinning orphan
+        os._exit(3)
+
+    signal.signal(signal.SIGALRM, _watchdog)
+    limit = int(os.environ.get("VERIF_CASE_TIMEOUT", "30")) + 5
     for line in sys.stdin:
         rid, func, args = json.loads(line)
+        signal.alarm(limit)
         try:
             if func == "__assertions__":
                 rep = {"ok": bool(ASSERTIONS)}
@@ -59,6 +77,7 @@ def _main():
                 rep = {"ok": getattr(eng, func)(*args)}
         except BaseException as e:  # noqa
             rep = {"error": "".join(traceback.format_exception_only(type(e), e)).strip()[:300]}
+        signal.alarm(0)
         rep["id"] = rid
         real_stdout.write(json.dumps(rep, default=str) + "\n")
         real_stdout.flush()
